@@ -9,6 +9,7 @@ import (
 	"fmt"
 	"strconv"
 	"strings"
+	"sync/atomic"
 	"testing"
 
 	"vf/ev"
@@ -520,11 +521,57 @@ func c14KnownKey(tags []string, list bool) string {
 	return ""
 }
 
+// c14Spoil feeds broken neighbours of generated values to every decoder and ignores the outcome
+// (a panic would be C08's business; here only what follows is judged).
+func c14Spoil(g *sip.Gen) {
+	tag := g.Tag()
+	na, _ := g.GenNameAddr(sip.NAOpts{AllowBare: false, Tag: tag, MaxHParams: 4, NoFindings: true})
+	txt := na.String()
+	v, _ := g.GenVia(false)
+	vt := v.String()
+	breakIt := func(t string) string {
+		switch g.R.Intn(7) {
+		case 0:
+			return t + ";"
+		case 1:
+			return t + ";;x=1"
+		case 2:
+			return strings.Replace(t, ">", "", 1)
+		case 3:
+			return strings.Replace(t, "<", "<<", 1)
+		case 4:
+			return t + ";=v"
+		case 5:
+			if len(t) > 4 {
+				return t[:len(t)/2]
+			}
+			return t
+		default:
+			return t + ", , "
+		}
+	}
+	vfRecover("spoil", func() {
+		switch g.R.Intn(5) {
+		case 0:
+			ParseFromSpec(breakIt(txt))
+		case 1:
+			ParseTo(breakIt(txt))
+		case 2:
+			ParseRoute(breakIt(txt))
+		case 3:
+			ParseRecordRoute(breakIt(txt))
+		default:
+			ParseVia(breakIt(vt))
+		}
+	})
+}
+
 func TestVerifC14(t *testing.T) {
 	run := ev.New("C14", "exploration",
 		"grammar-generated values (name-addr/addr-spec, sip/sips/tel/urn URIs, Via, Route/Record-Route lists, CSeq, request lines, whole messages); oracle = generator's abstract value; "+
 			"distinct = distinct (kind, grammar-alternative signature); trivial = value without any optional component")
 	total := ev.Pick(200000, 12000000)
+	var spoiled int64
 	workers := vfNumWorkers()
 	per := total / workers
 	report := func(kind, input, got, why string, tags []string, list bool, neutralOK func() bool) {
@@ -540,6 +587,12 @@ func TestVerifC14(t *testing.T) {
 		for i := 0; i < per; i++ {
 			if run.Violations() > 200 {
 				return
+			}
+			if g.R.Intn(5) == 0 {
+				// a value the decoders must refuse (or may accept - not judged) right before the next
+				// case: what they keep from a failed decode must not leak into the next value
+				c14Spoil(g)
+				atomic.AddInt64(&spoiled, 1)
 			}
 			switch i % 8 {
 			case 0: // From
@@ -690,6 +743,7 @@ func TestVerifC14(t *testing.T) {
 			}
 		}
 	})
+	run.Observe("broken_values_decoded_right_before_a_case", atomic.LoadInt64(&spoiled))
 	run.Assume("values stay inside the C14 quantifier: no folded lines, no LWS around ';' '=' inside parameters, no empty parameter values (k=), canonical CSeq numbers")
 	vfFinish(t, run, int64(total)*9/10)
 }
